@@ -158,7 +158,8 @@ def cases(tier, seed):
             # pairs cannot be summed or histogrammed in 1-d: map them to a number first
             pre.append(["call", "inc"])
         post = [rng.choice(POST) for _ in range(rng.choice([0, 0, 1, 1, 2]))]
-        yield {"dim": dim, "edges": edges, "arg": arg, "flow": flow, "pre": pre, "acc": acc,
+        yield {"hist": rng.choice([None, None, None, "copy-mid", "attr-late", "pickle-mid"]),
+               "dim": dim, "edges": edges, "arg": arg, "flow": flow, "pre": pre, "acc": acc,
                "post": post, "form": rng.choice(["fcseq", "auto"]),
                "vform": rng.choice(["plain", "combine"]),
                "mapseq": rng.choice(MAPSEQ), "drop": rng.random() < 0.7,
@@ -256,8 +257,39 @@ def run_case(r, obs):
     edges_given = copy.deepcopy(edges)
     sib = lena.structures.SplitIntoBins(seq, var, edges)
     flow = mkflow(r)
-    for v in flow:
-        sib.fill(v)
+    if r.get("hist") == "attr-late" and not isinstance(var, lena.variables.Combine):
+        # an attribute of the argument variable set after the element was built (the element
+        # keeps the variable): context.variable describes the variable as it is
+        var.unit = "cm"
+        var.range = [0, 1]
+        var_context = copy.deepcopy(var.var_context)
+        obs.count("late_attribute_histories")
+    if r.get("hist") in ("copy-mid", "pickle-mid") and len(flow) >= 2:
+        # a copy taken after half of the values goes on alone: it holds what the original held
+        # and gets the rest (the original gets other values, which must not reach the copy)
+        half = len(flow) // 2
+        for v in flow[:half]:
+            sib.fill(v)
+        orig = sib
+        try:
+            if r["hist"] == "copy-mid":
+                sib = copy.deepcopy(orig)
+            else:
+                import pickle
+                sib = pickle.loads(pickle.dumps(orig))
+        except Exception:  # pylint: disable=broad-except
+            sib = orig
+            orig = None
+            obs.count("analyses_not_copyable")
+        for v, w in zip(flow[half:], mkflow(r)[:len(flow) - half]):
+            sib.fill(v)
+            if orig is not None:
+                orig.fill(w)
+        if orig is not None:
+            obs.count("copy_histories")
+    else:
+        for v in flow:
+            sib.fill(v)
     results = list(sib.compute())
     obs.count("histograms_yielded", len(results))
     # ---------------- the oracle: one private analysis per cell on its sub-flow
